@@ -86,6 +86,8 @@ class World:
         self.specs = {}               # name -> SpecFnV
         self.spec_defs = {}           # name -> (ModuleInfo, FunctionDef)
         self.spec_defined = set()
+        self.spec_defining = set()
+        self.spec_macros = {}         # non-recursive spec functions: name -> (param consts, body)
         self.overrides = {}           # qualname -> callable(interp, args, kwargs)
         self.lemmas = {}              # name -> (ModuleInfo, FunctionDef)  (proved side-car lemmas)
         self.fresh_n = 0
@@ -183,6 +185,34 @@ class World:
             self.spec_defs[fname] = (mi, fn)
         return mi
 
+    def spec_calls(self, name):
+        """Names of spec functions called (syntactically) by spec function `name`."""
+        if name not in self.spec_defs:
+            return set()
+        mi, fn = self.spec_defs[name]
+        out = set()
+        for node in ast.walk(fn):
+            if isinstance(node, ast.Call):
+                if isinstance(node.func, ast.Name) and node.func.id in self.specs:
+                    out.add(node.func.id)
+                for a in node.args:      # seq_map(f, ...) passes a spec function by name
+                    if isinstance(a, ast.Name) and a.id in self.specs:
+                        out.add(a.id)
+        return out
+
+    def spec_is_recursive(self, name):
+        seen = set()
+        todo = list(self.spec_calls(name))
+        while todo:
+            n = todo.pop()
+            if n == name:
+                return True
+            if n in seen:
+                continue
+            seen.add(n)
+            todo.extend(self.spec_calls(n))
+        return False
+
     def map_fn(self, fname):
         """z3 recursive function map_<f>(l, extras...) = [f(x, extras...) for x in l] (generated)."""
         key = 'map_' + fname
@@ -196,8 +226,13 @@ class World:
         consts = [z3.Const('%s?%d' % (key, i), s) for i, s in enumerate(sorts[:-1])]
         l = consts[0]
         n = z3.Length(l)
+        if fname in self.spec_macros:
+            mc, mb = self.spec_macros[fname]
+            elem = z3.substitute(mb, *zip(mc, [l[0]] + consts[1:]))
+        else:
+            elem = sf.decl(l[0], *consts[1:])
         body = z3.If(n == 0, z3.Empty(sorts[-1]),
-                     z3.Concat(z3.Unit(sf.decl(l[0], *consts[1:])), decl(z3.SubSeq(l, 1, n - 1), *consts[1:])))
+                     z3.Concat(z3.Unit(elem), decl(z3.SubSeq(l, 1, n - 1), *consts[1:])))
         z3.RecAddDefinition(decl, consts, body)
         self.specs[key] = SpecFnV(key, decl, pk, rk)
         self.spec_defined.add(key)
